@@ -1022,6 +1022,9 @@ func genCrash(r *rand.Rand, n int, tier string) []string {
 		"1 s f r 2 s f r 3 s", // two rotated segments, unflushed tail
 	}
 	nfixed := len(fixed)
+	if tier != "thorough" && n > 4 {
+		n = 4 // the runner raises n to the thorough count when a fact or proof is broken; every history costs thousands of process pairs
+	}
 	if tier == "thorough" {
 		nfixed = 1 // the runner uses several seeds in this tier: the rest of the budget goes to random histories
 	}
